@@ -779,6 +779,66 @@ def gen_z3opmap(repo):
     return "\n".join(out) + "\n"
 
 
+# ----------------------------------------------------------------------------------------------
+# balancer.py / operations.py: the comparison tables of the balancer (C25)
+# ----------------------------------------------------------------------------------------------
+
+@generator("BalancerTables")
+def gen_balancer_tables(repo):
+    """operations.opposites (operator -> operator with swapped operands), Balancer.comparison_info
+    (operator -> (is_lt, is_equal, is_unsigned)) and Balancer._unsigned_comparison as association lists."""
+    def dict_literal(tree_body, name, where):
+        for n in tree_body:
+            tgt = None
+            if isinstance(n, ast.Assign) and len(n.targets) == 1 and isinstance(n.targets[0], ast.Name):
+                tgt, val = n.targets[0].id, n.value
+            elif isinstance(n, ast.AnnAssign) and isinstance(n.target, ast.Name):
+                tgt, val = n.target.id, n.value
+            if tgt == name:
+                if not isinstance(val, ast.Dict):
+                    raise TranslateError("%s in %s is no longer a dict literal" % (name, where))
+                return val
+        raise TranslateError("%s not found in %s" % (name, where))
+
+    ops_tree = ast.parse(open(os.path.join(repo, "claripy/operations.py")).read())
+    opp = dict_literal(ops_tree.body, "opposites", "operations.py")
+    opposites = []
+    for k, v in zip(opp.keys, opp.values):
+        if not (isinstance(k, ast.Constant) and isinstance(k.value, str) and isinstance(v, ast.Constant) and isinstance(v.value, str)):
+            raise TranslateError("opposites entry is not a pair of string literals")
+        opposites.append((k.value, v.value))
+    bal_tree = ast.parse(open(os.path.join(repo, "claripy/backends/backend_vsa/balancer.py")).read())
+    cls = [n for n in bal_tree.body if isinstance(n, ast.ClassDef) and n.name == "Balancer"]
+    if len(cls) != 1:
+        raise TranslateError("class Balancer not found")
+    ci = dict_literal(cls[0].body, "comparison_info", "balancer.py")
+    info = []
+    for k, v in zip(ci.keys, ci.values):
+        if not (isinstance(k, ast.Constant) and isinstance(k.value, str) and isinstance(v, ast.Tuple) and len(v.elts) == 3
+                and all(isinstance(e, ast.Constant) and isinstance(e.value, bool) for e in v.elts)):
+            raise TranslateError("comparison_info entry is not op -> (bool, bool, bool)")
+        info.append((k.value, tuple(e.value for e in v.elts)))
+    uc = dict_literal(cls[0].body, "_unsigned_comparison", "balancer.py")
+    unsigned = []
+    for k, v in zip(uc.keys, uc.values):
+        if not (isinstance(k, ast.Constant) and isinstance(k.value, str) and isinstance(v, ast.Constant) and isinstance(v.value, str)):
+            raise TranslateError("_unsigned_comparison entry is not a pair of string literals")
+        unsigned.append((k.value, v.value))
+    b = lambda x: "true" if x else "false"  # noqa
+    out = ["(* GENERATED by tools/py2coq.py from claripy/operations.py (opposites) and claripy/backends/backend_vsa/balancer.py "
+           "(comparison_info, _unsigned_comparison) -- do not edit *)",
+           "From Coq Require Import String List Bool.", "Import ListNotations.", "Open Scope string_scope.", "",
+           "Definition opposites : list (string * string) :=", "  ["]
+    out.append(";\n".join('   ("%s", "%s")' % kv for kv in opposites))
+    out += ["  ].", "", "(* operator -> (is_lt, is_equal, is_unsigned) *)",
+            "Definition comparison_info : list (string * (bool * bool * bool)) :=", "  ["]
+    out.append(";\n".join('   ("%s", (%s, %s, %s))' % (k, b(v[0]), b(v[1]), b(v[2])) for k, v in info))
+    out += ["  ].", "", "Definition unsigned_comparison : list (string * string) :=", "  ["]
+    out.append(";\n".join('   ("%s", "%s")' % kv for kv in unsigned))
+    out += ["  ]."]
+    return "\n".join(out) + "\n"
+
+
 if __name__ == "__main__":
     import sys
     print(GENERATORS[sys.argv[1]](sys.argv[2] if len(sys.argv) > 2 else "/repo"))
